@@ -66,8 +66,11 @@ def gen_design(r, features=()):
             m.nets[esc(r, "n%d" % j, features)] = (lsb + w - 1, lsb)
         if "attrs" in features and r.random() < 0.3:
             m.attrs = {"keep": None} if r.random() < 0.5 else {"mark": "\"yes\""}
+        nonprim = [x for x in mods if not x.prim]
         for j in range(r.randint(0, 4)):
             ref = r.choice(mods)
+            if j == 0 and nonprim and r.random() < 0.6:
+                ref = nonprim[-1]          # chains: deep hierarchies (with 'shuffle': every declaration order)
             ins = Inst(esc(r, "u%d" % j, features), ref.name)
             positional = "positional" in features and r.random() < 0.3 and ref.declared
             conns = {}
